@@ -138,7 +138,7 @@ func c11Child(treePath, scenPath, outPath string) {
 	var fake *FakePeer
 	B = newLive("B", tree.raws(sc.B))
 	res.B0 = obsJ(B.observe())
-	if sc.Kind != "fake" {
+	if sc.Kind != "fake" || len(sc.A) > 0 {
 		A = newLive("A", tree.raws(sc.A))
 		res.A0 = obsJ(A.observe())
 	}
@@ -226,11 +226,29 @@ func c11Child(treePath, scenPath, outPath string) {
 		switch sc.Fault {
 		case "reverse", "dup", "silent":
 			fake.Script = sc.Fault
+		case "gone":
+			fake.Script = "silent"
 		}
 		fake.run()
 		B.start(true, nil, false)
 		time.Sleep(time.Duration(sc.DelayMs) * time.Millisecond)
 		must(fake.connectTo(B.addr()))
+		if A != nil {
+			// an honest peer next to the scripted one
+			A.start(true, nil, false)
+			if sc.Fault == "gone" {
+				// the scripted peer announces its statistics, serves nothing and leaves; only then B meets A
+				for t1 := time.Now(); time.Since(t1) < 5*time.Second; time.Sleep(5 * time.Millisecond) {
+					if h, _, _ := B.bc.VerifSyncState(); h == fake.Stats.Height {
+						break
+					}
+				}
+				time.Sleep(time.Duration(sc.Param) * time.Millisecond)
+				fake.disconnect()
+				cnt.add("gone")
+			}
+			must(B.connectTo(A.addr()))
+		}
 	case "triple":
 		A.start(true, nil, false)
 		C.start(true, nil, false)
